@@ -88,6 +88,8 @@ def _alpha_notes() -> Dict[str, Any]:
                     "is read under its old name in every module before the obligations are generated -- a bijective renaming, nothing else is changed"}
 
 
+PRESUPPOSES = {"C10": ["C01"]}
+DRIVER_ALSO = {"C01", "C02", "C03", "C04", "C05", "C06", "C07", "C20"}
 MEM_LIMIT = int(os.environ.get("VERIF_MEM_GB", "6")) << 30
 SCEN_TIMEOUT = int(os.environ.get("VERIF_SCENARIO_TIMEOUT", "300"))
 
@@ -196,7 +198,20 @@ def main(argv=None) -> int:
         traceback.print_exc()
         print(f"INTERNAL-ERROR property={prop} loading contracts")
         return 3
-    idxs = [i for i, s in enumerate(core.REGISTRY) if prop in s.props or "*" in s.props]
+    # properties that presuppose another one: C01's positional matching (k-th operand name against the k-th operand) is only
+    # meaningful on a stream whose fields contain no separator -- every obligation that serves C10 therefore also serves C01
+    also = [q for q, ps in PRESUPPOSES.items() if prop in ps]
+
+    def _serves_prop(props) -> bool:
+        return prop in props or any(q in props for q in also)
+    # every pattern property (C01-C07) is stated about the verdict / matches of the whole operation: it presupposes that the
+    # driver hands the compiled rule and the WHOLE stream to the engine once (scan semantics, C11) -- the driver scenarios
+    # therefore also serve them
+    drv = prop in DRIVER_ALSO
+
+    def _scen_selected(sc_) -> bool:
+        return _serves_prop(sc_.props) or "*" in sc_.props or (drv and sc_.ident.startswith("driver:") and ("C11" in sc_.props or "C12" in sc_.props))
+    idxs = [i for i, s in enumerate(core.REGISTRY) if _scen_selected(s)]
     if args.list:
         for i in idxs:
             print(core.REGISTRY[i].ident, core.REGISTRY[i].func)
@@ -217,7 +232,8 @@ def main(argv=None) -> int:
         sc = core.REGISTRY[i]
         # a part of a scenario that did not run to completion (RUN, not proved) leaves ALL the obligations it would have
         # generated for this property unchecked, whatever properties the RUN obligation itself was labelled with
-        own = [x for x in o if prop in x["props"] or "*" in x["props"]
+        own = [x for x in o if _serves_prop(x["props"]) or "*" in x["props"]
+               or (drv and sc.ident.startswith("driver:") and ("C11" in x["props"] or "C12" in x["props"]))
                or (x["family"] == "RUN" and x["status"] != PROVED and "*" not in sc.props)]
         for x in o:
             all_obs[x["name"]] = x
